@@ -19,6 +19,11 @@ pub trait IsogenyMap {
     fn isogeny_map(&mut self);
 }
 
+#[cfg(feature = "verif")]
+pub fn verif_eval_iso<PtT: CurveProjective>(pt: &mut PtT, coeffs: [&[CoordT<PtT>]; 4]) {
+    eval_iso(pt, coeffs)
+}
+
 /// Generic isogeny evaluation function
 fn eval_iso<PtT: CurveProjective>(pt: &mut PtT, coeffs: [&[CoordT<PtT>]; 4]) {
     // XXX hack: In array below, 16 is long enough for both iso11 and iso3.
